@@ -29,7 +29,10 @@ RULE = ("one PRNG (VERIF_SEED) drives everything.  ad: every integer number type
         "incl. the extreme pairs (-128/127, 0/255, INT_MIN/INT_MAX, half the range apart, floats one ulp apart at every "
         "magnitude), a global attribute appended / prepended / removed, each compared in both orders; dump: every "
         "object of every generated file (all flavours); imp: every input kind alone (rank 2 and 3) and every ordered "
-        "pair of different input kinds (plus some triples) in ONE hdfimport command. "
+        "pair of different input kinds (plus some triples) in ONE hdfimport command; many: a file of 45 objects "
+        "(hdiff's object table grows at 21 and 41) with element changes around each growth point, both orders, and "
+        "the hdiff -b object table; large: a Vdata read by hdp in several pieces with a shorter last one, an image and "
+        "an SDS just above the tools' 1 MiB buffers. "
         "A case is non-trivial when it lies in the property's domain (comparable objects, in-range values, "
         "NaN-free floats) and the tool ran; distinct by content")
 TRUSTED = ["Coq 8.16.1 kernel (vm_compute only for closed witnesses and finite tables)",
@@ -57,6 +60,7 @@ INT_RANGE = {20: (-128, 127), 21: (0, 255), 22: (-32768, 32767), 23: (0, 65535),
 INT_TYPES = [20, 21, 22, 23, 24, 25]
 FLOAT_TYPES = [5, 6]
 NUM_TYPES = INT_TYPES + FLOAT_TYPES
+DFK_SIZE = {3: 1, 4: 1, 20: 1, 21: 1, 22: 2, 23: 2, 24: 4, 25: 4, 5: 4, 6: 8}
 SIG_STRIP = "sds-above-1MiB:nfound-of-last-strip-only"
 SIG_SINGLE = "object-in-one-file-only:listed-by-match-but-not-counted"
 
@@ -1121,6 +1125,54 @@ def replay_text(env, ctx, text, report=True):
         if head[0] == "HD":
             check_pair(env, ctx, head[1] if len(head) > 1 else "corpus", " ".join(head[1:]), t1, t2, st)
         return 0
+    if head[0] in ("LARGEVD", "LARGEGR", "LARGESDS"):
+        descs, cur = [], []
+        for l in body[1:]:
+            if l == "--":
+                descs.append(cur)
+                cur = []
+            else:
+                cur.append(l)
+        descs.append(cur)
+        files = [env.mk("\n".join(d) + "\n") for d in descs]
+        tk = descs[0][0].split()
+        bad = 0
+        if tk[0] == "W":
+            nf = int(tk[3])
+            per = []
+            for j in range(nf):
+                per += [int(tk[5 + 3 * j])] * int(tk[6 + 3 * j])
+            api = env.run([env.exe, "rd", files[0][0], files[0][1]], timeout=300)[1].split()
+            vals = list(map(int, api[5 + 3 * nf:]))
+            want = [fmt_api(nt, v) for nt, v in zip(per * int(tk[2]), vals)]
+            rc, out, err = env.run([env.hdp, "dumpvd", "-d", "-n", tk[1], files[0][1]], timeout=300)
+            vsize = sum(DFK_SIZE[bt(nt)] for nt in per)
+            print("model (records printed, in order 0..n-1?, first bad):", model_lines(env, "vdwalk", "%s %d\n" % (tk[2], vsize))[0])
+        elif tk[0] == "Q":
+            n = int(tk[3]) * int(tk[4]) * int(tk[5])
+            want = [tk[6]] * n
+            if 0 <= int(tk[7]) < n:
+                want[int(tk[7])] = tk[8]
+            rc, out, err = env.run([env.hdp, "dumpgr", "-d", "-n", tk[1], files[0][1]], timeout=300)
+        else:
+            rank = int(tk[3])
+            n = 1
+            for d in tk[4:4 + rank]:
+                n *= int(d)
+            want = [tk[4 + rank]] * n
+            if 0 <= int(tk[5 + rank]) < n:
+                want[int(tk[5 + rank])] = tk[6 + rank]
+            rc, out, err = env.run([env.hdp, "dumpsds", "-d", "-n", tk[1], files[0][1]], timeout=300)
+        got = out.split()
+        ok = got == want and not crashed(rc)
+        bad += 0 if ok else 1
+        print("hdp dump of %s: rc=%d, %d tokens printed, %d values in the object: %s" % (tk[1], rc, len(got), len(want), "agrees" if ok else "DIFFERS"))
+        if len(files) > 1:
+            rc, out, err = run_pair(env, files[0][1], files[1][1])
+            exp = 0 if descs[0] == descs[1] else 1
+            print("hdiff file1 file2: exit %d, specification %d" % (rc, exp))
+            bad += 0 if rc == exp else 1
+        return 1 if bad else 0
     if head[0] == "DUMP":
         t = "\n".join(body[1:]) + "\n"
         d, h = env.mk(t)
